@@ -46,6 +46,9 @@ pub enum YP {
     /// kanji, left bracket index, number of kana, right bracket index, kana selector
     Group(u8, u8, u8, u8, u8),
     C(char),
+    /// like Group, but the head character and one reading character are taken from the ends (+-1)
+    /// of the KANJI / HIRAGANA / KATAKANA ranges of the configured char.def
+    Edge(u16, u8, u16, u8, u8),
 }
 
 pub fn render_dtext(table: &str, t: &DText) -> String {
@@ -81,6 +84,52 @@ pub fn render_tp(table: &str, t: &[TP]) -> String {
     s
 }
 
+/// characters at the ends of the KANJI (0) / reading (1) ranges of a char.def, and their neighbours
+pub fn edge_chars(cd: &crate::model::chardef::CharDefModel, reading: bool) -> Vec<char> {
+    use crate::model::chardef::{HIRAGANA, KANJI, KATAKANA};
+    let mask = if reading { HIRAGANA | KATAKANA } else { KANJI };
+    let mut v = Vec::new();
+    for r in &cd.ranges {
+        if r.cats & mask != 0 {
+            for cp in [r.begin.saturating_sub(1), r.begin, r.end, r.end + 1] {
+                if let Some(c) = char::from_u32(cp) {
+                    if !c.is_control() && !v.contains(&c) {
+                        v.push(c);
+                    }
+                }
+            }
+        }
+    }
+    if v.is_empty() {
+        v.push('漢');
+    }
+    v
+}
+
+pub fn render_yp_cd(cd: &crate::model::chardef::CharDefModel, left: &[char], right: &[char], t: &[YP]) -> String {
+    let mut s = String::new();
+    let (ek, er) = (edge_chars(cd, false), edge_chars(cd, true));
+    for p in t {
+        match p {
+            YP::Edge(k, l, r, rb, n) => {
+                s.push(ek[ix(*k, ek.len())]);
+                s.push(left[*l as usize % left.len()]);
+                let pos = *n % 3;
+                for j in 0..(1 + *n % 3) {
+                    if j == pos % (1 + *n % 3) {
+                        s.push(er[ix(*r, er.len())]);
+                    } else {
+                        s.push('か');
+                    }
+                }
+                s.push(right[*rb as usize % right.len()]);
+            }
+            other => s.push_str(&render_yp(left, right, std::slice::from_ref(other))),
+        }
+    }
+    s
+}
+
 pub fn render_yp(left: &[char], right: &[char], t: &[YP]) -> String {
     const KANJI: &[char] = &['京', '都', '漢', '字', '一', '々'];
     const KANA: &[char] = &['か', 'な', 'カ', 'ナ', 'ー', 'ん', 'ァ', 'ゔ'];
@@ -96,6 +145,7 @@ pub fn render_yp(left: &[char], right: &[char], t: &[YP]) -> String {
                 s.push(right[*r as usize % right.len()]);
             }
             YP::C(c) => s.push(*c),
+            YP::Edge(..) => {}
         }
     }
     s
@@ -159,6 +209,7 @@ fn psm_text(max: usize) -> BoxedStrategy<String> {
 fn yomi_text(max: usize) -> BoxedStrategy<Vec<YP>> {
     let ch = prop_oneof![
         6 => (any::<u8>(), any::<u8>(), any::<u8>(), any::<u8>(), any::<u8>()).prop_map(|(a, b, c, d, e)| YP::Group(a, b, c, d, e)),
+        3 => (any::<u16>(), any::<u8>(), any::<u16>(), any::<u8>(), any::<u8>()).prop_map(|(a, b, c, d, e)| YP::Edge(a, b, c, d, e)),
         3 => select(vec!['京', '都', '漢', '字', '一', '々']).prop_map(YP::C),
         3 => select(vec!['(', '（', '[', '《', ')', '）', ']', '》']).prop_map(YP::C),
         4 => select(vec!['か', 'な', 'カ', 'ナ', 'ー', 'ん', 'ァ', 'ゔ']).prop_map(YP::C),
@@ -281,7 +332,7 @@ impl Property for C07 {
     fn sample(&self, case: &Case) -> Value {
         match case {
             Case::Default { table, texts } => json!({"rewrite_table": table, "texts": texts.iter().map(|t| render_dtext(table, t)).collect::<Vec<_>>()}),
-            Case::Yomi { chardef_test, left, right, max_len, texts } => json!({"yomigana": {"test_chardef": chardef_test, "left": left, "right": right, "max": max_len}, "texts": texts.iter().map(|t| render_yp(left, right, t)).collect::<Vec<_>>()}),
+            Case::Yomi { chardef_test, left, right, max_len, texts } => json!({"yomigana": {"test_chardef": chardef_test, "left": left, "right": right, "max": max_len}, "texts": texts.iter().map(|t| render_yp_cd(&chardef_of(&if *chardef_test { FileSrc::TestRes } else { FileSrc::Shipped }), left, right, t)).collect::<Vec<_>>()}),
             other => serde_json::to_value(other).unwrap(),
         }
     }
@@ -397,7 +448,7 @@ impl Property for C07 {
                 };
                 let cd = chardef_of(&cd_src);
                 for x in texts {
-                    let x = &render_yp(left, right, x);
+                    let x = &render_yp_cd(&cd, left, right, x);
                     let got = match normalized_text(&l.dict, x) {
                         Ok(g) => g,
                         Err(e) => {
